@@ -156,7 +156,7 @@ Definition bad (st : state) : bool :=
   || (1 <? cb s)                                              (* callbacks twice *)
   || ((0 <? cb s) && any_held ts)                             (* execution inside after callbacks *)
   || existsb (fun t => match tkind t with
-                       | KClose => finished t && (negb (done s) || any_held ts)  (* Close returned early *)
+                       | KClose => finished t && any_held ts            (* Close returned early *)
                        | _ => false end) ts.
 
 Definition enabled (st : state) : list nat :=
